@@ -11,7 +11,6 @@ import (
 	"strconv"
 	"strings"
 	"syscall"
-	"time"
 )
 
 const (
@@ -40,7 +39,6 @@ func (s *sentinel) note(now snapshot) {
 	s.dirty = !now.equal(s.pristine)
 }
 
-
 var sent = &sentinel{}
 
 func (s *sentinel) path(rel string) string { return filepath.Join(s.root, rel) }
@@ -63,6 +61,9 @@ func cleanStale() {
 	}
 	for _, e := range ents {
 		name := strings.TrimSuffix(strings.TrimPrefix(e.Name(), "funcs-"), ".json")
+		if strings.HasPrefix(name, "trace-") {
+			name = strings.SplitN(strings.TrimPrefix(name, "trace-"), "-", 2)[0]
+		}
 		pid, err := strconv.Atoi(name)
 		if err != nil || pid == os.Getpid() {
 			continue
@@ -213,26 +214,22 @@ func (a snapshot) equal(b snapshot) bool {
 
 // ---- process oracle
 
-// drainChildren reaps every child process of this process and returns how
-// many there were.  A child that golua itself already waited for is seen by
-// childUsage instead.
+// drainChildren waits for and reaps every child process of this process and
+// returns how many there were.  It blocks until they have all exited (no
+// deadline: every command of the pool terminates by itself; a child that does
+// not is caught by the driver's hang watchdog).  A child that golua itself
+// already waited for is seen by childUsage instead.
 func drainChildren() (n int, stuck bool) {
-	deadline := time.Now().Add(5 * time.Second)
 	for {
 		var ws syscall.WaitStatus
-		pid, err := syscall.Wait4(-1, &ws, syscall.WNOHANG, nil)
+		pid, err := syscall.Wait4(-1, &ws, 0, nil)
 		switch {
 		case err == syscall.EINTR:
 			continue
-		case err != nil: // ECHILD: no children at all
+		case err != nil: // ECHILD: no children (left)
 			return n, false
 		case pid > 0:
 			n++
-		default: // children exist, none has exited yet
-			if time.Now().After(deadline) {
-				return n + 1, true
-			}
-			time.Sleep(200 * time.Microsecond)
 		}
 	}
 }
